@@ -397,7 +397,13 @@ func (x *SX) guardedForever(rec *LoopRec) {
 		rec.CondT = G
 	}
 	rec.Iter = rest
-	// the counter
+	x.synthPost(rec)
+}
+
+// synthPost: a loop without a post statement whose continuing iterations all advance a counter by the same constant (`for i >= 0 { …;
+// i-- }`) gets that advance as a synthesised post statement; the iterations then leave the counter alone.
+func (x *SX) synthPost(rec *LoopRec) {
+	rest := rec.Iter
 	for o := range rec.Init {
 		if !isIntType(o.Type()) {
 			continue
@@ -1478,6 +1484,8 @@ func (x *SX) forOnce(v *ast.ForStmt, oc outcome, id int, bump int, extra []types
 	x.resolveLabels(rec, v)
 	if v.Cond == nil && v.Post == nil {
 		x.guardedForever(rec)
+	} else if v.Post == nil {
+		x.synthPost(rec)
 	}
 	after := head
 	after.epoch += 1000 * bump // whatever the loop did, later loads are distinct from earlier ones
